@@ -60,7 +60,26 @@ impl Property for C01 {
             let r = resolve(op, &st0, d, &seen);
             let dump0 = sim.dump();
             let k0 = scaled_k(st0.quote_asset_reserve.u128(), st0.base_asset_reserve.u128(), d);
-            let res = exec_swap(&mut sim, &r, 0);
+            // a third of the swaps carry the caller's limit at / one unit beside / far from the quoted amount: a swap a limit lets
+            // through is still a swap (the curve must not pay for the caller's limit)
+            let lim = if op.k % 3 == 0 && op.limit_mode != 0 {
+                match sim.query::<cosmwasm_std::Uint128>(super::curve::quote_query(&r)).ok().map(|x| x.u128()) {
+                    Some(e) => match op.limit_mode {
+                        1 => e.saturating_sub(1),
+                        2 => e,
+                        3 => e.saturating_add(1),
+                        4 => e / 2,
+                        _ => e.saturating_mul(2).saturating_add(7),
+                    },
+                    None => 0,
+                }
+            } else {
+                0
+            };
+            if lim != 0 {
+                out.count("swaps_with_limit");
+            }
+            let res = exec_swap(&mut sim, &r, lim);
             let st1 = sim.state();
             let mut v: Option<Violation> = None;
             match &res {
